@@ -93,12 +93,35 @@ def audit_axioms(pid, thms):
     return ok, problems
 
 
+ITEM_PROPS = {
+    "to_upper": {"C02"}, "is_valid_cmd_name_char": {"C02"},
+    "is_valid_dec_char": {"C04"}, "is_valid_hex_char": {"C04", "C05"}, "convert_hex_char_to_value": {"C04", "C05"},
+    "get_atcmd_buf_size": {"C03", "C06"}, "get_unsolicited_buf_size": {"C03", "C06"}, "get_unsolicited_buf_offset": {"C03", "C06"},
+    "is_busy": {"C18"}, "is_hold": {"C18", "C14"}, "is_unsolicited_fsm_busy": {"C15", "C18"},
+    "is_unsolicited_buffer_full": {"C13"}, "is_unsolicited_buffer_empty": {"C13", "C15"}, "service_merge": {"C15"},
+    "process_write_loop": {"C10", "C14"}, "process_run_loop": {"C10", "C14"}, "process_read_loop": {"C10", "C14"},
+    "process_test_loop": {"C10", "C14"}, "T5": {"C16", "C17"},
+    "T4": {"C01", "C02", "C06", "C09", "C10", "C11", "C12", "C13", "C14", "C15", "C18", "C19", "C20"},
+}
+
+
+def translator_item_props(item):
+    return ITEM_PROPS.get(item, set("C%02d" % k for k in range(1, 21)))
+
+
 def lean_side(pid, tier):
     """build + audit. returns dict(ok, build_ok, thms, discharged, problems, driver_ok)"""
     res = {"thms": property_theorems(pid), "discharged": [], "problems": [], "build_ok": False, "driver_ok": False}
     import translate
     tr = translate.regenerate()
     res["translator"] = tr
+    # an item the translator no longer recognises is a broken tie for the properties built on it
+    if tr.get("status") != "ok":
+        res["problems"].append("translator failed: %s" % tr.get("error"))
+    else:
+        for item, why in (tr.get("fallbacks") or {}).items():
+            if pid in translator_item_props(item):
+                res["problems"].append("translator: source item %s no longer has the recognised shape (%s); the expected text was used instead" % (item, why[:120]))
     ok, out = lib.lake_build(("CatVerif", "catdrv"))
     res["build_ok"] = ok
     if not ok:
